@@ -45,7 +45,9 @@ def blkOp (s : BlkSess) (op : String) : BlkSess × String :=
   match words op with
   | ["tick", ms] => ({ s with now := s.now + nat! ms }, "T")
   | "req" :: ep :: spec =>
-    match (buildSpec spec).bind (fun p => Request.fromPacket p (nat! ep)) with
+    -- endpoint 255 stands for a request object without a source
+    match (buildSpec spec).bind (fun p => (Request.fromPacket p (nat! ep)).map (fun r =>
+      if nat! ep = 255 then { r with source := none } else r)) with
     | .ok req =>
       let (h', req', r) := interceptRequest s.h s.now req
       ({ s with h := h', last := some req' },
@@ -68,7 +70,8 @@ def blkOp (s : BlkSess) (op : String) : BlkSess × String :=
     ({ s with last := s.last.map (fun req => { req with response := req.response.map (fun m =>
         nums.foldl (fun (m : Packet) n => m.clearOption n) m) }) }, "C")
   | "peek" :: ep :: spec =>
-    match (buildSpec spec).bind (fun p => Request.fromPacket p (nat! ep)) with
+    match (buildSpec spec).bind (fun p => (Request.fromPacket p (nat! ep)).map (fun r =>
+      if nat! ep = 255 then { r with source := none } else r)) with
     | .ok req => (s, peekTok s.h s.now (keyOf req))
     | _ => (s, "Knone")
   | _ => (s, "bad-op")
